@@ -260,9 +260,50 @@ def _docs(tier):
 GRID_ROWS = [4, 8, 12, 16, 20, 24, 28, 32, 36, 40, 44, 48, 52, 64, 96, 128, 192, 384]
 
 
+LARGE = dict(quick=[30, 300], thorough=[30, 300, 999])
+
+
+def check_large(M, ctx):
+    """size: M measures of 8 or 12 rows with 3-4 symbols each (taps, mines, holds and rolls that end in the next measure),
+    tempo changes at beats 400, 800 and 1101.25, two charts of different lengths."""
+    doc = default_doc()
+    doc["bpms"] = [("0.000", "120.000")] + [(f"{b:.3f}", v) for b, v in ((400, "90.000"), (800, "180.000"), (1101.25, "150.000")) if b < 4 * M - 8]
+    doc["offset"] = "-0.250"
+
+    def chart(n_meas, shift):
+        meas, open_cols = [], {}
+        for m in range(n_meas):
+            R = 12 if m % 5 == 2 else 8
+            cells = {}
+            for c, r0 in list(open_cols.items()):
+                cells[(r0 % R, c)] = "3"  # the tail of a long note opened in the previous measure
+            open_cols = {}
+            for j in range(3 + m % 2):
+                r, c = (j * 3 + m + shift) % R, (m + j + shift) % 4
+                if (r, c) in cells or any(cc == c for (_, cc), sym in cells.items() if sym == "3" and _ >= r):
+                    continue
+                if (m * 4 + j) % 13 == 6 and m + 1 < n_meas and c not in open_cols:
+                    # nothing else may follow in this column of this measure
+                    if any(cc == c and rr > r for (rr, cc) in cells):
+                        continue
+                    cells[(r, c)] = "2" if m % 2 else "4"
+                    open_cols[c] = 1 + j
+                elif c not in open_cols:
+                    cells[(r, c)] = "M" if (m + j) % 11 == 3 else "1"
+            meas.append(dict(rows=R, cells=cells))
+        return meas
+
+    c0 = doc["charts"][0]
+    c0["measures"] = chart(M, 0)
+    doc["charts"].append(dict(type="dance-single", desc="e", diff="Easy", meter="2", radar="0,0,0,0,0", measures=chart(max(2, M // 3), 1)))
+    for k in ("_first", "_rows", "_lead"):
+        doc.pop(k, None)
+    run_doc(doc, dict(devs=[f"large={M}"], elems=[]), dict(large=M), ctx, ("sm-large", M))
+
+
 def roots(tier, seed):
     n = len(_docs(tier))
-    return [dict(start=s, stop=min(n, s + CHUNK)) for s in range(0, n, CHUNK)] + [dict(grid=r) for r in GRID_ROWS]
+    return [dict(large=m) for m in LARGE[tier]] + [dict(start=s, stop=min(n, s + CHUNK)) for s in range(0, n, CHUNK)] + [dict(grid=r) for r in GRID_ROWS]
 
 
 def check_grid(R, ctx):
@@ -278,6 +319,9 @@ def check_grid(R, ctx):
 
 
 def explore(root, tier, ctx):
+    if "large" in root:
+        check_large(root["large"], ctx)
+        return
     if "grid" in root:
         check_grid(root["grid"], ctx)
         return
@@ -290,6 +334,8 @@ def explore(root, tier, ctx):
 def replay(case, ctx):
     if "grid" in case:
         check_grid(case["grid"], ctx)
+    elif "large" in case:
+        check_large(case["large"], ctx)
     else:
         check(tuple(tuple(x) for x in case["devs"]), tuple(case["seq"]), ctx, -1)
 
